@@ -52,6 +52,7 @@ type Loc struct {
 }
 
 type State struct {
+	iters   map[*ssa.Range]string // ghost "visited" set of each map iterator
 	cells   map[*ssa.Alloc]Val
 	heaps   map[string]string // heap name -> current array term
 	globals map[*ssa.Global]Val
@@ -59,7 +60,7 @@ type State struct {
 }
 
 func (s *State) clone() *State {
-	n := &State{cells: make(map[*ssa.Alloc]Val, len(s.cells)), heaps: make(map[string]string, len(s.heaps)),
+	n := &State{iters: map[*ssa.Range]string{}, cells: make(map[*ssa.Alloc]Val, len(s.cells)), heaps: make(map[string]string, len(s.heaps)),
 		globals: make(map[*ssa.Global]Val, len(s.globals)), nxt: s.nxt}
 	for k, v := range s.cells {
 		n.cells[k] = v
@@ -69,6 +70,9 @@ func (s *State) clone() *State {
 	}
 	for k, v := range s.globals {
 		n.globals[k] = v
+	}
+	for k, v := range s.iters {
+		n.iters[k] = v
 	}
 	return n
 }
@@ -456,6 +460,9 @@ func (r *run) globalInit(g *ssa.Global) Val {
 		}
 		if !isErrSentinel { // sentinels are declared in the preamble
 			r.emit(fmt.Sprintf("(declare-const %s %s)", name, so))
+			if g.Name() == "init$guard" {
+				r.assume("true", fmt.Sprintf("(not %s)", name)) // the initialiser runs once
+			}
 			r.assume("true", r.typeFacts(et, name))
 			if _, isPtr := et.Underlying().(*types.Pointer); isPtr {
 				r.assume("true", fmt.Sprintf("(< %s %s)", name, r.nxt0))
@@ -485,6 +492,9 @@ func (r *run) store(fr *frame, st *State, l *Loc, v Val, reach string, pos token
 	switch l.Kind {
 	case LCell:
 		v.Orig = nil
+		if v.Term != "" && v.Loc == nil && v.Tup == nil {
+			v.Term = r.share(v.Term, v.Sort)
+		}
 		st.cells[l.Cell] = v
 	case LField:
 		base := r.load(st, l.Base, reach)
@@ -493,7 +503,7 @@ func (r *run) store(fr *frame, st *State, l *Loc, v Val, reach string, pos token
 		name, _, _ := r.heapName(l.Struct, l.Field)
 		h := r.heapGet(st, name)
 		r.frameOblige(fr, st, "frame.store", reach, l, pos)
-		st.heaps[name] = fmt.Sprintf("(store %s %s %s)", h, l.Ptr, v.Term)
+		st.heaps[name] = r.share(fmt.Sprintf("(store %s %s %s)", h, l.Ptr, v.Term), "(Array Int "+r.heapSort[name]+")")
 	case LHeapCell:
 		name := "HC_" + mangle(r.eng.Sorts.SortOf(l.Elem))
 		r.heapSort[name] = r.eng.Sorts.SortOf(l.Elem)
@@ -514,7 +524,9 @@ func (r *run) store(fr *frame, st *State, l *Loc, v Val, reach string, pos token
 		base := r.load(st, l.Base, reach)
 		r.store(fr, st, l.Base, Val{Term: fmt.Sprintf("(store %s %s %s)", base.Term, l.Idx, v.Term), Sort: base.Sort, Type: base.Type}, reach, pos)
 	case LGlobal:
-		r.oblige(fr.name, "frame.global-store", reach, "false", "store to package-level variable "+l.Global.Name(), pos)
+		if fr.fn.Name() != "init" {
+			r.oblige(fr.name, "frame.global-store", reach, "false", "store to package-level variable "+l.Global.Name(), pos)
+		}
 		st.globals[l.Global] = v
 	default:
 		r.unsupported("store kind %d", l.Kind)
@@ -585,6 +597,7 @@ type loopInfo struct {
 	measure  string // decreases term at header
 	hreach   string
 	extra    map[string]Val
+	iter     *ssa.Range
 }
 
 func constVal(r *run, c *ssa.Const) Val {
@@ -940,7 +953,22 @@ func (r *run) mergeStates(ins []inEdge) (*State, string) {
 		r.emit(fmt.Sprintf("(assert (= %s %s))", c, reach))
 		reach = c
 	}
-	out := &State{cells: map[*ssa.Alloc]Val{}, heaps: map[string]string{}, globals: map[*ssa.Global]Val{}}
+	out := &State{iters: map[*ssa.Range]string{}, cells: map[*ssa.Alloc]Val{}, heaps: map[string]string{}, globals: map[*ssa.Global]Val{}}
+	for it := range ins[0].st.iters {
+		var vs []Val
+		ok := true
+		for _, e := range ins {
+			v, has := e.st.iters[it]
+			if !has {
+				ok = false
+				break
+			}
+			vs = append(vs, Val{Term: v, Sort: r.iterSort(it)})
+		}
+		if ok {
+			out.iters[it] = r.mergeVals(ins, vs, "mit").Term
+		}
+	}
 	// cells present in all
 	var cells []*ssa.Alloc
 	for c := range ins[0].st.cells {
@@ -1129,6 +1157,21 @@ func (r *run) loopHeader(fr *frame, li *loopInfo, st *State, reach string) strin
 		}
 	}
 	r.havocHeaps(st, eff)
+	for _, b := range fr.fn.Blocks {
+		if !li.body[b] {
+			continue
+		}
+		for _, in := range b.Instrs {
+			if nx, ok := in.(*ssa.Next); ok {
+				if rg, ok := nx.Iter.(*ssa.Range); ok {
+					if _, live := st.iters[rg]; live {
+						st.iters[rg] = r.fresh("visited", r.iterSort(rg))
+						li.iter = rg
+					}
+				}
+			}
+		}
+	}
 	// auto invariant for range loops
 	if li.idxCell != nil && li.idxBound != nil {
 		ri := st.cells[li.idxCell].Term
@@ -1186,6 +1229,28 @@ func (r *run) loopEnv(fr *frame, li *loopInfo, st *State) *specEnv {
 	if li.idxCell != nil && li.spec != nil && li.spec.IdxName != "" {
 		if v, ok := st.cells[li.idxCell]; ok {
 			env.extra[li.spec.IdxName] = SVal{Term: fmt.Sprintf("(+ %s 1)", v.Term), Sort: "Int"}
+		}
+	}
+	if li.spec != nil && li.spec.IdxName != "" && li.idxCell == nil {
+		// map-range loop: the name denotes the ghost set of keys visited so far
+		it := li.iter
+		if it == nil {
+			for _, b := range fr.fn.Blocks {
+				if li.body[b] {
+					for _, in := range b.Instrs {
+						if nx, ok := in.(*ssa.Next); ok {
+							if rg, ok := nx.Iter.(*ssa.Range); ok {
+								it = rg
+							}
+						}
+					}
+				}
+			}
+		}
+		if it != nil {
+			if v, ok := st.iters[it]; ok {
+				env.extra[li.spec.IdxName] = SVal{Term: v, Sort: r.iterSort(it)}
+			}
 		}
 	}
 	return env
@@ -1280,4 +1345,20 @@ func (r *run) assumeClause(env *specEnv, reach string, x *SExpr, text string) {
 	for _, inst := range zeroInstances(x) {
 		r.assume(reach, r.specBool(env, inst, text))
 	}
+}
+
+func (r *run) iterSort(rg *ssa.Range) string {
+	m := rg.X.Type().Underlying().(*types.Map)
+	return "(Array " + r.eng.Sorts.SortOf(m.Key()) + " Bool)"
+}
+
+// share names a large term by a fresh constant so that later terms refer to it by name
+// (terms are strings: without sharing, repeated functional updates grow exponentially).
+func (r *run) share(term, sort string) string {
+	if len(term) < 160 {
+		return term
+	}
+	c := r.fresh("d", sort)
+	r.emit(fmt.Sprintf("(assert (= %s %s))", c, term))
+	return c
 }
